@@ -410,6 +410,9 @@ def prove_function(world, make_models, contract, timeout_ms=None, arg_terms_out=
         if c.requires:
             for nm, g in c.requires(cx):
                 ctx.assume(g)
+        if c.invariants:
+            for nm, g in c.invariants(cx):
+                ctx.assume(g)
         heap_entry = dict(ctx.heap)
 
         def hook(fr):
